@@ -421,6 +421,94 @@ static void probe_conn(struct agent *a, struct agent *p)
     check_fd_identity(a);
 }
 
+
+/* Genuine back-pressure (no injection): the peer stops reading until this end's sends are refused and its descriptor, awaiting SENDABLE, has
+ * been quiet for 300 ms.  Then input arrives from the peer: an application awaiting RECEIVABLE - together with SENDABLE or alone - must be
+ * woken although the write direction stays blocked, and must get the data.  Afterwards the peer reads on and everything accepted arrives. */
+static bool bp_send_one(struct agent *x, uint32_t len, int *err)
+{
+    struct vep *e = &x->ep; unsigned char *buf = malloc(len);
+    long ai = veng_att_begin(e, len); veng_fill(e->key, e->att[ai].id, buf, len);
+    int rc = vx_send(e, buf, len); int se = errno; free(buf); veng_att_end(e, ai, rc, se);
+    *err = rc >= 0 ? 0 : se;
+    return rc >= 0;
+}
+
+static int bp_recv_one(struct agent *x)       /* 1 data, 0 EAGAIN, -1 end */
+{
+    struct vep *e = &x->ep; size_t cap = 65535; unsigned char *buf = malloc(cap);
+    int rc = vx_receive(e, buf, cap); int se = errno;
+    if (rc > 0) veng_rx_add(e, buf, rc, cap);
+    free(buf);
+    if (rc > 0) return 1;
+    if (rc == 0) { e->term = 1; return -1; }
+    if (se == EAGAIN) return 0;
+    e->term = 2; e->term_errno = se; return -1;
+}
+
+static void probe_backpressure(struct agent *a, struct agent *p)
+{
+    const char *tn = vtp_name[a->ep.tp]; short rev; int err;
+    if (!a->ep.s || !p || !p->ep.s || a->ep.term || p->ep.term || a->failed || p->failed) return;
+    a->ep.plan.quiet = true; p->ep.plan.quiet = true;
+    if (vtp_is_tcp_based(a->ep.tp) && a->ep.tp != TP_UTLS_UX) {
+        struct vs_scope sc = { .active = true, .nonblocking = true, .api = "xcm_attr_set", .ep = a->ep.id, .plan = &a->ep.plan };
+        vs_enter(&sc); xcm_attr_set_int64(a->ep.s, "tcp.user_timeout", 120); xcm_attr_set_int64(p->ep.s, "tcp.user_timeout", 120); vs_leave();
+    }
+    bool full = false; long filled = 0;
+    for (int k = 0; k < 4000 && !full; k++) {
+        if (bp_send_one(a, 60000, &err)) { filled++; continue; }
+        if (err != EAGAIN) { vobs("backpressure_probe_broke", 1); return; }
+        vx_await(&a->ep, XCM_SO_SENDABLE);
+        bool woke = false;
+        for (int w = 0; w < 60 && !woke; w++) { poll_fd(a, &rev); if (rev & POLLIN) woke = true; else { struct pollfd none; vs_real_poll(&none, 0, 5); } }
+        if (woke) { vx_finish(&a->ep); continue; }
+        full = true;
+    }
+    if (!full) { vobs("backpressure_not_reached", 1); return; }
+    vobs("backpressure_established", 1); vobs("messages_sent_into_backpressure", filled);
+    int rfd = vs_ledger_data_fd(a->ep.id);
+    for (int v = 0; v < 2; v++) {
+        int cond = v == 0 ? (XCM_SO_SENDABLE | XCM_SO_RECEIVABLE) : XCM_SO_RECEIVABLE;
+        vx_await(&a->ep, cond);
+        long before = rx_count(a);
+        uint32_t len = 1 + vrnd_n(&rng, 200); bool sent = false;
+        for (int k = 0; k < 2000 && !sent; k++) { sent = bp_send_one(p, len, &err); if (!sent && err != EAGAIN) { vobs("backpressure_probe_broke", 1); return; } }
+        if (!sent) { vobs("backpressure_probe_peer_could_not_send", 1); return; }
+        for (int k = 0; k < 5000; k++) { if (vx_finish(&p->ep) == 0 || errno != EAGAIN) break; }
+        bool arrived = false;
+        for (int k = 0; k < 2000 && rfd >= 0; k++) { int q = 0; ioctl(rfd, FIONREAD, &q); if (q > 0) { arrived = true; break; } struct pollfd none; vs_real_poll(&none, 0, 1); }
+        if (!arrived) { vobs("probe_data_never_arrived", 1); return; }
+        bool woke = false;
+        for (int w = 0; w < 100 && !woke; w++) { poll_fd(a, &rev); if (rev & POLLIN) woke = true; else { struct pollfd none; vs_real_poll(&none, 0, 5); } }
+        vobs(v == 0 ? "probe_input_while_write_blocked_awaiting_both" : "probe_input_while_write_blocked_awaiting_receivable", 1);
+        if (!woke) {
+            int q = 0; if (rfd >= 0) ioctl(rfd, FIONREAD, &q);
+            eviol("not-ready:receivable-under-backpressure", tn, "ep%d is write-blocked by real back-pressure (%ld messages of 60000 bytes accepted, then EAGAIN and 300 ms without a wake-up) and awaits condition %d; %d bytes from the peer wait in its kernel buffer, yet the xcm fd has not become readable in 500 ms", a->ep.id, filled, cond, q);
+            return;
+        }
+        bool got = false;
+        for (int k = 0; k < 3000 && !got; k++) { int r1 = bp_recv_one(a); if (r1 < 0) { vobs("backpressure_probe_broke", 1); return; } if (rx_count(a) > before) got = true; else { struct pollfd none; vs_real_poll(&none, 0, 1); } }
+        if (!got) { eviol("input-not-delivered-under-backpressure", tn, "ep%d is write-blocked; input from the peer made its xcm fd readable but 3000 xcm_receive calls over 3 s returned only EAGAIN", a->ep.id); return; }
+        /* bytestream: take the rest of that piece */
+        for (int k = 0; k < 50; k++) if (bp_recv_one(a) <= 0) break;
+        if (a->ep.term) { vobs("backpressure_probe_broke", 1); return; }
+    }
+    /* the peer reads on: the write direction opens, everything accepted arrives */
+    double t0 = vnow(); bool done = false;
+    while (vnow() - t0 < 30 && !done) {
+        int fr = vx_finish(&a->ep); int fe = errno;
+        if (fr < 0 && fe != EAGAIN) { vobs("backpressure_probe_broke", 1); return; }
+        int r1 = 0; for (int k = 0; k < 64; k++) { r1 = bp_recv_one(p); if (r1 <= 0) break; }
+        if (r1 < 0) { vobs("backpressure_probe_broke", 1); return; }
+        if (fr == 0 && rx_count(p) >= tx_ok(a)) done = true;
+    }
+    if (!done) { vobs("backpressure_drain_gave_up", 1); return; }
+    vobs("backpressure_probes_completed", 1);
+    veng_check_delivery(cur_case, &a->ep, &p->ep, false, ctx);
+    veng_check_delivery(cur_case, &p->ep, &a->ep, false, ctx);
+}
+
 static void probe_server(struct agent *s)
 {
     short rev; const char *tn = vtp_name[s->ep.tp];
@@ -674,6 +762,10 @@ static void one_case(long idx, void *arg)
                     for (int i = 0; i < n_ag && vviol_count() == 0; i++) if (ag[i].role != R_SERVER && ag[i].ep.s && !ag[i].failed) { ag[i].ep.plan.quiet = true; if (ag[i].peer) ag[i].peer->ep.plan.quiet = true; probe_conn(&ag[i], ag[i].peer); }
                     if (vviol_count() == 0) probe_server(S);
                 }
+            }
+            if (prop == PROP_C04 && vviol_count() == 0 && C->ep.s && !C->failed && C->peer && C->peer->ep.s && !C->peer->failed && vrnd_p(&rng, 40)) {
+                bool client_blocked = vrnd_p(&rng, 50);
+                probe_backpressure(client_blocked ? C : C->peer, client_blocked ? C->peer : C);
             }
             /* close phase: the client closes; the accepted side, awaiting RECEIVABLE, must be told */
             if (vviol_count() == 0 && C->ep.s && !C->failed && C->peer && C->peer->ep.s) {
